@@ -22,6 +22,10 @@ CLAIMS = {
     "C06": ("Theorems over the regenerated index functions (C06_slice_spec, translator tie T1) and the slice spec; stack built-ins "
             "on the reference interpreter; tie: slices family (all a,b in the tier's range x stack depth 0..4 from the input).",
             "DESIGN.md §4 C06"),
+    "C19": ("Theorems C19_rep_bounds (reference interpreter: exactly the greedy run of consecutive units, MIN <= count <= MAX, cursor at "
+            "the end of the last matched unit, failure only below MIN), C19_rep_bounds_impl / C19_rep_fails_impl (real parse path, via "
+            "C05), C19_array; witness C19_refuted_before_fix. Tie: bounds family (all MIN, MAX incl. MIN > MAX) with the reference "
+            "interpreter and an independent counting oracle.", "DESIGN.md §4 C19"),
     "C15": ("Theorems C15_preorder / C15_levelorder / C15_render / C15_thin for every rose tree (loops = recursive specs, fuel bound "
             "proved); tie: real iterators.rs on all tree shapes up to the tier's node bound + random trees.", "DESIGN.md §4 C15"),
 }
